@@ -4,6 +4,7 @@ package main
 
 import (
 	"fmt"
+	"sort"
 	"go/constant"
 	"go/token"
 	"go/types"
@@ -27,6 +28,8 @@ type Env struct {
 	pkg         *types.Package
 	depth       int
 	recDepth    int
+	// parameter names denote their entry values (postconditions and old(...))
+	paramsEntry bool
 }
 
 func (ex *Exec) envAt(fr *Frame, st *State, b *ssa.BasicBlock) *Env {
@@ -187,6 +190,8 @@ func (ex *Exec) eval(env *Env, e Expr) Val {
 		return Val{T: types.Typ[types.UntypedNil], Const: nilConst{}}
 	case *EStr:
 		return scalar(types.Typ[types.String], ex.ld.strConst(x.S))
+	case *EFloat:
+		return scalar(types.Typ[types.Float64], FConst(float64bits(x.V), F64S))
 	case *EIdent:
 		return ex.evalIdent(env, x.Name)
 	case *EOld:
@@ -194,6 +199,7 @@ func (ex *Exec) eval(env *Env, e Expr) Val {
 		n.st = env.old
 		n.over = nil
 		n.phiOver = nil
+		n.paramsEntry = true
 		return ex.eval(&n, x.X)
 	case *EUnary:
 		if x.Op == "&" {
@@ -365,6 +371,15 @@ func (ex *Exec) evalIdent(env *Env, name string) Val {
 
 func (ex *Exec) lookupNameEnv(env *Env, name string) (Val, bool) {
 	fr := env.fr
+	if env.paramsEntry {
+		for _, p := range fr.fn.Params {
+			if p.Name() == name {
+				if v, ok := fr.regs[p]; ok {
+					return v, true
+				}
+			}
+		}
+	}
 	// phi overrides by value identity
 	if env.phiOver != nil {
 		for i := len(fr.names) - 1; i >= 0; i-- {
@@ -722,6 +737,31 @@ func (ex *Exec) evalCall(env *Env, x *ECall) Val {
 		} else {
 			// a real Go method on the receiver's type
 			rv := ex.eval(env, recv)
+			if _, isIface := rv.T.Underlying().(*types.Interface); isIface {
+				if fc := ex.ld.ifaceContract(rv.T, name); fc != nil && fc.Opts["functional"] == "true" {
+					n, ok2 := types.Unalias(rv.T).(*types.Named)
+					if ok2 {
+						for k := 0; k < n.NumMethods(); k++ {
+							_ = k
+						}
+					}
+					it := rv.T.Underlying().(*types.Interface)
+					for k := 0; k < it.NumMethods(); k++ {
+						if it.Method(k).Name() == name {
+							sig := it.Method(k).Type().(*types.Signature)
+							var avs []Val
+							for _, a := range args {
+								avs = append(avs, ex.eval(env, a))
+							}
+							rs := ex.ifaceFunctional(rv.T, name, sig, rv, avs)
+							if len(rs) == 1 {
+								return rs[0]
+							}
+						}
+					}
+				}
+				sfail("interface method %s has no functional contract", name)
+			}
 			if fn := ex.ld.methodOf(rv.T, name); fn != nil {
 				avs := ex.evalArgs(env, args, fn, 1)
 				if _, isPtr := fn.Params[0].Type().Underlying().(*types.Pointer); !isPtr {
@@ -1005,6 +1045,32 @@ func (ex *Exec) callSpec(env *Env, sf *SpecFunc, args []Expr) Val {
 				}
 			}
 		}
+		if ex.recDry > 0 {
+			return scalar(rt, FreshVar("recdry", rl.Leaves[0].S))
+		}
+		if !sf.KeysDone {
+			// dry evaluation: which state components does the body read?
+			ex.recDry++
+			nA := len(ex.assumptions)
+			dst := env.st.clone()
+			dst.track = map[string]*Sort{}
+			dn := *n
+			dn.st, dn.old = dst, dst
+			ex.eval(&dn, sf.Body)
+			ex.recDry--
+			ex.assumptions = ex.assumptions[:nA]
+			for k := range dst.track {
+				sf.Keys = append(sf.Keys, k)
+			}
+			sort.Strings(sf.Keys)
+			for _, k := range sf.Keys {
+				sf.KeySorts = append(sf.KeySorts, dst.track[k])
+			}
+			sf.KeysDone = true
+		}
+		for i, k := range sf.Keys {
+			leaves = append(leaves, env.st.get(k, sf.KeySorts[i]))
+		}
 		app := App("rec_"+sf.Name, rl.Leaves[0].S, leaves...)
 		if closed && env.recDepth < 1 && !ex.recDone[app] {
 			if ex.recDone == nil {
@@ -1012,7 +1078,6 @@ func (ex *Exec) callSpec(env *Env, sf *SpecFunc, args []Expr) Val {
 			}
 			ex.recDone[app] = true
 			n.recDepth = env.recDepth + 1
-			n.st = newState() // the body must be a function of its arguments only
 			n.old = n.st
 			b := ex.eval(n, sf.Body)
 			if b.Const != nil {
